@@ -1763,6 +1763,21 @@ post_t * instance_t::parse_post(char *          line,
         }
       }
 
+      // A fixated lot price survives strip_annotations() once its commodity
+      // has been seen with both kinds of price.  Lots play no part in a
+      // balance assertion, so whatever is still annotated joins the plain
+      // commodity it belongs to.
+      {
+        balance_t plain;
+        foreach (const balance_t::amounts_map::value_type& pair, diff.amounts) {
+          amount_t component(pair.second);
+          if (component.has_annotation())
+            component.set_commodity(component.commodity().referent());
+          plain += component;
+        }
+        diff = plain;
+      }
+
       // If amt has a commodity, restrict balancing to that. Otherwise, it's the blanket '0' and
       // check that all of them are zero.
       if (amt.has_commodity()) {
@@ -1795,6 +1810,8 @@ post_t * instance_t::parse_post(char *          line,
         // balance assertion: the posting itself counts towards the balance being
         // asserted, but only in the commodity the assertion is about
         amount_t this_amt(post->amount.strip_annotations(keep_details_t()));
+        if (this_amt.has_annotation())
+          this_amt.set_commodity(this_amt.commodity().referent());
         if (! amt.has_commodity() || this_amt.commodity() == amt.commodity())
           diff -= this_amt;
         if (! no_assertions && ! diff.is_zero()) {
